@@ -225,6 +225,28 @@ def tbis_ops(info, ctx):
     return ops, meta
 
 
+PSD_UNITS = [("urm", "uniformRandomPSD"), ("urr", "uniformRandomPSDRestart"), ("dpm", "discPatchPSD"),
+             ("dpr", "discPatchPSDRestart"), ("cam", "caproniPSD"), ("car", "caproniPSDRestart")]
+
+
+def psd_ops(info, ctx):
+    """the three random photon source distributions, normal and restart constructor, source
+    output off / on.  Options other than the output switch (loop and data conditions) only guard
+    dereferences, which are not part of the comparison: they are set to 1."""
+    ops, meta = [], []
+    for short, lname in PSD_UNITS:
+        u = info["units"][lname]
+        flags = [i for i, o in enumerate(u["opts"]) if o in ("output_sources", "has_output")]
+        if len(flags) != 1:
+            raise RuntimeError("C12: %s: the source-output switch was not found among the options %r" % (lname, u["opts"]))
+        for out in (0, 1):
+            bits = ["1"] * len(u["opts"])
+            bits[flags[0]] = str(out)
+            ops.append("%s %d %s 00" % (short, out, "".join(bits)))
+            meta.append((short, out))
+    return ops, meta
+
+
 def canon(line):
     """comparable part of an answer line: unit, after, owned, dtor, end"""
     l = vlib.strip_branch(line)
@@ -257,7 +279,7 @@ def correspondence(ctx, info, ok):
     h = vlib.build_harness("c12", extra=["-I" + info["hpp_dir"]],
                            libs=[os.path.join(lib, "libTaskBasedEngine.a"), os.path.join(lib, "libSharedEngine.a")])
     ops, meta = [], []
-    for f in (lom_ops, tm_ops, tbis_ops):
+    for f in (lom_ops, tm_ops, tbis_ops, psd_ops):
         o, m = f(info, ctx)
         ops += o
         meta += m
@@ -265,6 +287,7 @@ def correspondence(ctx, info, ok):
     allops = corpus + ops
     n, impl, model, orc = ctx.correspond(
         "lifecycle", h, vlib.driver("drv_c12"), allops, cmp=cmp_lines,
+        harness_args=["--leak-ok=" + ",".join(LEAKS_STATED_IN_LEAN)],
         oracle_key=lambda what, grp: "lifecycle:" + what.split()[0] + ":" + (re.search(r"(\w+::\w+)", what).group(1) if re.search(r"(\w+::\w+)", what) else grp[0].split()[0]),
         describe=None)
     raw = {}
@@ -293,6 +316,11 @@ def correspondence(ctx, info, ok):
         m = re.search(r"rawleak=(\d+):(\d+)", il)
         if m:
             raw[w[0]] = max(raw.get(w[0], 0), int(m.group(1)))
+            # owners that keep their ParameterFile inside: every block allocated by the constructor
+            # (also by sub-objects) must be gone after the destructor
+            if w[0] in ("tbis", "urm", "urr", "cam", "car") and int(m.group(1)) > 0:
+                ctx.violation("lifecycle:raw-leak:" + w[0], "%s blocks (%s bytes) allocated by the constructor are still alive after the destructor of unit %s"
+                              % (m.group(1), m.group(2), w[0]), {"stream": "lifecycle", "ops": [op], "impl": il})
     # option coverage: every option seen true and false (where the generator could set it)
     for uname, short in (("liveOutputManager", "lom"), ("taskBasedIonizationSimulation", "tbis")):
         nopt = len(info["units"][uname]["opts"])
@@ -351,7 +379,7 @@ def rhd_param(c):
         if c.get(k) is not None:
             t += "  %s: %s\n" % (name, b(c[k]))
     t += "  number of buffers: 4000\n  queue size per thread: 5000\n  shared queue size: 5000\n  number of tasks: 30000\n"
-    t += "DensityGridWriter:\n  type: AsciiFile\n  prefix: snap\n"
+    t += "DensityGridWriter:\n  type: Gadget\n  prefix: snap\n  padding: 3\n"
     t += "Hydro:\n  polytropic index: 1.6666666667\n"
     t += "RestartManager:\n  output interval: %s\n  maximum number of backups: %d\n" % (c.get("restart_interval", "100000. s"), c.get("backups", 1))
     if c.get("diffuse"):
@@ -436,13 +464,17 @@ def rhd_configs(ctx):
     cs.append(("rhd-cooling", dict(base, cooling=True), 2))
     cs.append(("rhd-radiation", dict(base, radiation=True, layout=(2, 2, 2)), 2))
     cs.append(("rhd-radiation-diffuse-live", dict(base, radiation=True, diffuse=True, live=True, live_isd=True, layout=(2, 1, 2)), 3))
-    cs.append(("rhd-radiation-mask-turbulence", dict(base, radiation=True, mask=True, turbulence=True, layout=(2, 2, 2), per=(True, True, True)), 4))
+    cs.append(("rhd-radiation-mask-turbulence", dict(base, radiation=True, mask=True, turbulence=True, layout=(2, 2, 2)), 4))
     cs.append(("rhd-one-subgrid", dict(base, layout=(1, 1, 1), live=True), 1))
     n_extra = ctx.budget(3, 14)
     for i in range(n_extra):
         c = dict(layout=tuple(ctx.rng.choice([1, 2, 3]) for _ in range(3)), per=tuple(ctx.rng.choice([False, True]) for _ in range(3)))
         for k in ("mask", "turbulence", "gravity", "cooling", "radiation"):
             c[k] = ctx.rng.random() < 0.4
+        if c["radiation"]:
+            # photon packets in a periodic box of negligible optical depth travel for ever
+            # (physics, not a defect): radiation only in boxes with open walls
+            c["per"] = (False, False, False)
         c["diffuse"] = c["radiation"] and ctx.rng.random() < 0.5
         if ctx.rng.random() < 0.7:
             c["live"] = ctx.rng.random() < 0.7
@@ -540,7 +572,12 @@ def whole_runs(ctx, binary, label, env=None, timeout=240):
 
     # --- task-based RHD
     for (name, c, threads) in rhd_configs(ctx):
-        one(name, rhd_param(c), ["--task-based-rhd"], threads, [r"snap\d+\.txt"])
+        expect = [r"snap\d+\.hdf5"]
+        if c.get("live"):
+            for k, pat in (("live_sd", "surface_density_"), ("live_isd", "ionized_surface_density_"), ("live_dpdf", "density_PDF_"), ("live_vpdf", "velocity_PDF_")):
+                if c.get(k, k != "live_isd"):
+                    expect.append(pat + r"\d+\.txt")
+        one(name, rhd_param(c), ["--task-based-rhd"], threads, expect)
     # --- recorded finding: a source outside the box (coordinator's instruction: exactly one such
     #     configuration, stable key)
     c = dict(layout=(2, 2, 1), anchor=(0.1, -0.3, 0.7), sides=(1.1, 1.1, 1.1), source="default")
@@ -548,7 +585,7 @@ def whole_runs(ctx, binary, label, env=None, timeout=240):
     ctx.cov["source_outside_box_run"] = "completed without a detected error" if ok else "failed as recorded (%s)" % KEY_SOURCE_OUTSIDE
     # --- PhotonSourceDistribution: None in the RHD mode (found by this check)
     c = dict(layout=(1, 1, 1), source="none")
-    one("rhd-source-distribution-none", rhd_param(c), ["--task-based-rhd"], 1, [r"snap\d+\.txt"], key="run:rhd-null-source-distribution")
+    one("rhd-source-distribution-none", rhd_param(c), ["--task-based-rhd"], 1, [r"snap\d+\.hdf5"], key="run:rhd-null-source-distribution")
     # --- restart: dump at every step, stop after 2 steps, restart and finish
     for (name, c, threads) in [("restart-plain", dict(layout=(2, 2, 1)), 2),
                                ("restart-live-mask-turbulence", dict(layout=(2, 2, 2), per=(True, True, True), live=True, live_isd=True, mask=True, turbulence=True), 3),
@@ -568,7 +605,7 @@ def whole_runs(ctx, binary, label, env=None, timeout=240):
             stats["runs"] += 1
             ctx.count()
             ctx.branch("run-restart-" + label)
-            ok, what = classify_run(res2, [r"snap\d+\.txt"])
+            ok, what = classify_run(res2, [r"snap\d+\.hdf5"])
             ctx.distinct(("run", label, name, threads), nontrivial=True)
             if not ok:
                 report(name, what, param, cmd1 + " ; CMacIonize --params run.param --threads %d --task-based-rhd --restart . --dirty" % threads, res2)
@@ -580,6 +617,203 @@ def whole_runs(ctx, binary, label, env=None, timeout=240):
         aux = {"trackers.yml": tbi_tracker_yaml(types, c)} if types else None
         one(name, tbi_param(c), ["--task-based"], threads, [r"snap\d+\.txt"], aux=aux)
     one("tbi-dry-run", tbi_param(dict(diffuse=True)), ["--task-based", "--dry-run"], 1, [])
+    # --- a `type: Multi` tracker followed by another tracker in the same cell (found by this check:
+    #     add_trackers hands the second tracker to the user's MultiTracker, both delete it)
+    c = dict(trackers=True, same_cell=True, copy_level=0)
+    one("tbi-multi-tracker-shares-cell", tbi_param(c), ["--task-based"], 1, [r"snap\d+\.txt"], aux={"trackers.yml": tbi_tracker_yaml("MS", c)},
+        key="run:tracker-multi-shares-cell-double-delete")
     stats["wall_s"] = round(time.time() - t_start, 1)
     ctx.cov.setdefault("whole_runs", {})[label] = stats
     return stats
+
+
+# =========================================================================== sanitizer build
+
+ASAN_DIR = os.path.join(vlib.BUILD, "asan")
+ASAN_FLAGS = "-Wno-cpp -D%s -fsanitize=address,undefined -fno-omit-frame-pointer -g1" % vlib.GUARD
+ASAN_ENV = {
+    "ASAN_OPTIONS": "detect_leaks=0:halt_on_error=1:abort_on_error=0:exitcode=97:detect_stack_use_after_return=0:allocator_may_return_null=1",
+    "UBSAN_OPTIONS": "print_stacktrace=1:halt_on_error=1:exitcode=98",
+}
+
+
+def asan_binary():
+    """AddressSanitizer + UBSan build of the whole binary from the current tree (own build
+    directory, incremental: only the first build is expensive)"""
+    with vlib.Lock("asan"):
+        os.makedirs(ASAN_DIR, exist_ok=True)
+        t0 = time.time()
+        if os.path.exists(os.path.join(ASAN_DIR, "build.ninja")):
+            rc, out = vlib.sh(["cmake", ASAN_DIR])
+        else:
+            rc, out = vlib.sh(["cmake", "-G", "Ninja", "-S", vlib.REPO, "-B", ASAN_DIR, "-DCMAKE_BUILD_TYPE=Release",
+                               "-DCMAKE_CXX_FLAGS=" + ASAN_FLAGS, "-DCMAKE_EXE_LINKER_FLAGS=-fsanitize=address,undefined",
+                               "-DCMAKE_SHARED_LINKER_FLAGS=-fsanitize=address,undefined"])
+        if rc != 0:
+            raise RuntimeError("cmake configure of the sanitizer build failed:\n" + out[-3000:])
+        rc, out = vlib.sh(["cmake", "--build", ASAN_DIR, "-j16", "--target", "CMacIonize"])
+        if rc != 0:
+            raise RuntimeError("sanitizer build failed:\n" + out[-6000:])
+        return os.path.join(ASAN_DIR, "rundir", "CMacIonize"), time.time() - t0
+
+
+def lsan_rhd_leaks(ctx, binary, info):
+    """tie of the RHD locals (no harness can construct a function's locals): one complete RHD run
+    under LeakSanitizer; the allocation sites inside do_simulation that leak must be exactly the
+    fields the Lean theorem exempts (timeline)."""
+    env = dict(ASAN_ENV)
+    env["ASAN_OPTIONS"] = env["ASAN_OPTIONS"].replace("detect_leaks=0", "detect_leaks=1")
+    env["LSAN_OPTIONS"] = "exitcode=0:print_suppressions=0"
+    res, d = run_binary(binary, rhd_param(dict(layout=(2, 2, 1), live=True, mask=True, turbulence=True, per=(True, True, True))),
+                        ["--task-based-rhd"], 2, env=env, timeout=300)
+    shutil.rmtree(d, ignore_errors=True)
+    log = res["log"]
+    if "LeakSanitizer has encountered a fatal error" in log or ("ERROR: LeakSanitizer" not in log and "SUMMARY" not in log):
+        ctx.cov["lsan_rhd"] = "LeakSanitizer could not run here (ptrace not permitted?) or reported nothing: " + log[-200:].replace("\n", " | ")
+        if "ERROR: LeakSanitizer" not in log and res["rc"] == 0 and "fatal error" not in log:
+            ctx.broken_obligation("LeakSanitizer reports no leak in a complete task-based RHD run although the Lean theorem rhdSimulation_timeline_leaked says the TimeLine is never deleted (model and code disagree)", log[-1500:])
+        return
+    src = open(os.path.join(vlib.REPO, "src", "TaskBasedRadiationHydrodynamicsSimulation.cpp"), encoding="utf-8").read().split("\n")
+    fields = info["units"]["rhdSimulation"]["fields"]
+    leaked = set()
+    others = 0
+    for blk in re.split(r"\n(?=(?:Direct|Indirect) leak of )", log):
+        if not blk.startswith("Direct leak"):
+            continue
+        m = re.search(r"#1 0x[0-9a-f]+ in TaskBasedRadiationHydrodynamicsSimulation::do_simulation[^\n]*?TaskBasedRadiationHydrodynamicsSimulation\.cpp:(\d+)", blk)
+        if not m:
+            others += 1
+            continue
+        ln = int(m.group(1))
+        var = None
+        for k in range(ln - 1, max(ln - 6, 0), -1):
+            mm = re.search(r"(\w+)\s*=\s*(?:$|new\b)", src[k].strip()) if k < len(src) else None
+            if mm:
+                var = mm.group(1)
+                break
+        leaked.add(var or ("line %d" % ln))
+    ctx.cov["lsan_rhd"] = {"leaking_allocation_sites_in_do_simulation": sorted(leaked), "other_direct_leaks": others}
+    expected = {"timeline"}
+    if leaked != expected:
+        extra = sorted(leaked - expected)
+        if extra:
+            ctx.violation("run:asan:rhd-leak:" + ",".join(extra), "LeakSanitizer: pointer local(s) %s of do_simulation are never deleted in a complete task-based RHD run (the Lean theorem only exempts the TimeLine)" % extra,
+                          {"leaked": sorted(leaked), "log_tail": log[-3000:], "fields": fields})
+        else:
+            ctx.broken_obligation("LeakSanitizer does not report the TimeLine leak that the Lean model states (rhdSimulation_timeline_leaked): model and code disagree", log[-1500:])
+
+
+# =========================================================================== entry points
+
+# leaks that the Lean theorems state per class (Props/C12.lean): not reported by the harness
+LEAKS_STATED_IN_LEAN = ["DiscPatchPhotonSourceDistribution::_output_file"]
+
+
+def run(ctx):
+    ctx.level = "other"
+    ctx.assumptions += [
+        "PROVED (Lean, every option vector): the pointer life cycle of the anchored owners only — LiveOutputManager, TrackerManager (constructor/destructor), TaskBasedIonizationSimulation (constructor/destructor), the pointer locals of TaskBasedRadiationHydrodynamicsSimulation::do_simulation, the output stream of the three random photon source distributions (normal and restart constructor)",
+        "NOT proved, only SEARCHED by whole runs (exit status in the quick tier, AddressSanitizer/UBSan in the thorough tier): out-of-bounds accesses, use after free and uninitialised DATA reads anywhere else in the code, exit status 0 and outputs of complete runs",
+        "the class descriptions are extracted textually by tools/gen_c12_lifecycle.py (trusted, fails closed); a std::vector<T*> member that is resized, filled and deleted element-wise in loops over the whole vector is modelled by one representative element; TrackerManager::_multi_trackers is filled by add_trackers (not modelled: searched by runs with several trackers in one cell)",
+        "conditions that are not pointer tests are Boolean options; the same condition text is the same option (it is assumed not to change between constructor and destructor); cmac_error (abort) is treated as falling through (more paths, sound)",
+        "dereferences of null component pointers are only excluded under the stated assumptions on the parameter file (density function, source distribution and spectra present); the dry run of the RHD mode returns early and frees nothing",
+        "uninitialised-memory reads are only detected through 0xAA poisoning of the object storage and heap in the harness; MemorySanitizer is not used",
+    ]
+    try:
+        info = gen_c12_lifecycle.generate()
+    except gen_c12_lifecycle.GenError as e:
+        ctx.broken_obligation("translator: %s" % e, str(e))
+        info = None
+    if info is not None:
+        ctx.cov["translator"] = {k: {"fields": len(v["fields"]), "options": len(v["opts"]), "statements": v["nodes"],
+                                      "never_null_factories": v["never_null"]} for k, v in info["units"].items()}
+        ctx.cov["translator"]["regenerated"] = info["changed"]
+    ok = info is not None and ctx.obligations("CMacVerif.Props.C12", ["drv_c12"])
+    binary = vlib.full_binary(targets=("CMacIonize",))
+    ctx.cov["rule"] = ("life cycle: every option vector of LiveOutputManager (2^5 + defaults + single keys), tracker lists of 0..5 trackers of all types, "
+                       "constructor variants of TaskBasedIonizationSimulation (sources / spectra / diffuse field / trackers / zero luminosities, 1..4 threads), the three random photon source "
+                       "distributions x {normal, restart} constructor x {output off, on}; distinct = different op line, non-trivial = at least one pointer owned after the constructor. "
+                       "whole runs (search): task-based RHD with/without radiation x live output / mask / turbulence / gravity / cooling x layouts x 1..4 threads, restart in two stages, dry runs, "
+                       "task-based photoionization x diffuse / continuous source / trackers (incl. several per cell, weighted, in a copied subgrid); distinct = (binary, configuration)")
+    if info is not None:
+        okd = ok
+        if not ok:
+            # the theorems no longer check: still run the real classes to find a concrete failing input
+            okd, out = vlib.lake_build(["drv_c12"])
+            if not okd:
+                ctx.broken_obligation("Lean driver drv_c12 does not build", out[-1500:])
+        if ok or okd:
+            correspondence(ctx, info, ok)
+    stats = whole_runs(ctx, binary, "normal")
+    if ctx.thorough:
+        try:
+            abin, secs = asan_binary()
+            ctx.cov["asan_build_s"] = round(secs, 1)
+            whole_runs(ctx, abin, "asan", env=ASAN_ENV, timeout=600)
+            if info is not None:
+                lsan_rhd_leaks(ctx, abin, info)
+        except RuntimeError as e:
+            ctx.broken_obligation("sanitizer build: %s" % str(e)[:300], str(e))
+    ctx.cov["explanation"] = ("mechanism proved in Lean (pointer life cycle of the owners of optional components, every option vector), tied to the real classes by an "
+                              "allocation-trace differential; the system-level claim (complete runs exit 0 without invalid memory use) is validated by replayable whole runs "
+                              "(exit status; ASan/UBSan in the thorough tier), not proved")
+
+
+def replay(ctx, path):
+    obj = json.load(open(path))
+    print(json.dumps({k: v for k, v in obj.items() if k not in ("param", "log_tail", "aux_files", "detail")}, indent=1)[:3000])
+    if "param" in obj:
+        label = obj.get("binary", "normal")
+        if label == "asan":
+            binary, _ = asan_binary()
+            env = ASAN_ENV
+        else:
+            binary, env = vlib.full_binary(targets=("CMacIonize",)), None
+        d = tempfile.mkdtemp(prefix="verif_c12_replay_")
+        bad = False
+        for cmd in obj["cmd"].split(" ; "):
+            w = cmd.split()
+            args = [a for a in w[1:] if a != "--dirty"]
+            # drop "--params run.param --threads n": run_sim adds them
+            th = int(args[args.index("--threads") + 1]) if "--threads" in args else 1
+            rest, skip = [], 0
+            for a in args:
+                if skip:
+                    skip -= 1
+                    continue
+                if a in ("--params", "--threads"):
+                    skip = 1
+                    continue
+                rest.append(a)
+            res, _ = run_binary(binary, obj["param"], rest, th, aux=obj.get("aux_files") or None, env=env, keepdir=d, timeout=600)
+            okk, what = classify_run(res, [])
+            print("%s -> rc=%s %s" % (cmd, res["rc"], what))
+            print(res["log"][-1200:])
+            bad = bad or not okk
+        shutil.rmtree(d, ignore_errors=True)
+        print("REPRODUCED" if bad else "not reproduced")
+        return 1 if bad else 0
+    if obj.get("ops"):
+        info = gen_c12_lifecycle.generate()
+        lib = os.path.join(vlib.FULL, "lib")
+        vlib.full_binary(targets=("CMacIonize",))
+        return vlib.generic_replay(ctx, path, "c12", "drv_c12", cmp=cmp_lines,
+                                   harness_kw={"extra": ["-I" + info["hpp_dir"]],
+                                               "libs": [os.path.join(lib, "libTaskBasedEngine.a"), os.path.join(lib, "libSharedEngine.a")]})
+    print("replay file names a broken obligation, not an input; nothing to execute")
+    return 1
+
+
+MANIFEST = dict(
+    category="other",
+    text="PARTIAL. Proved in Lean (generic theorem over every class description that passes a decidable check, instantiated by `decide` on descriptions regenerated from the source on every run; "
+         "unbounded in the option vector): for LiveOutputManager, TrackerManager, TaskBasedIonizationSimulation, the pointer locals of TaskBasedRadiationHydrodynamicsSimulation::do_simulation and the "
+         "output stream of the Uniform-random / DiscPatch / Caproni source distributions (normal and restart constructors) the destructor frees only pointers the constructor allocated, each once, "
+         "tests or deletes no uninitialised pointer, uses none after its delete, and leaks nothing except what is stated per class (TimeLine of the RHD run, DiscPatch output stream); every constructor "
+         "initialises every owned pointer; the descriptions before /repo commits 4acd754 and d5ef870 are shown unsafe. Tied to the code by constructing the real classes in 0xAA-poisoned storage with "
+         "interposed operator new/delete for all option combinations (field-level allocation/free traces identical to the model's). NOT proved: out-of-bounds, use-after-free and uninitialised data "
+         "reads elsewhere and the exit status of whole runs — these are only searched by whole runs of all modes (exit status; ASan/UBSan build in the thorough tier).",
+    note="Trusted: Lean kernel + 3 axioms; textual translator tools/gen_c12_lifecycle.py (fails closed); uniform-vector abstraction; same condition text = same option; null dereferences excluded only under "
+         "stated parameter-file assumptions (theorem rhdSimulation_null_source_distribution_is_dereferenced shows one is necessary: genuine crash). Whole-run part is a search with replayable parameter files, not a proof.",
+    technique="Lean 4 proof (sound per-field abstract interpretation of a small constructor/destructor language, generic theorem + decide on generated descriptions) + allocation-trace differential "
+              "against the real classes + whole-run search with exit status and AddressSanitizer/UBSan")
